@@ -290,6 +290,117 @@ func parseCrash(stderr string) crash {
 	return c
 }
 
+// raceReport is one report of the race detector, attributed to a run.
+type raceReport struct {
+	run   int
+	sites [2]string
+	noise bool
+	text  string
+}
+
+var reRaceFrame = regexp.MustCompile(`^  (\S.*)\(\)$`)
+
+func shortFn(fn string) string {
+	fn = strings.TrimPrefix(fn, "github.com/jimlambrt/gldap/")
+	fn = strings.TrimPrefix(fn, "github.com/jimlambrt/")
+	fn = strings.TrimPrefix(fn, "github.com/")
+	return fn
+}
+
+// parseRaces extracts the race reports from a worker's stderr. srcDir is the
+// scratch directory (to look at harness source lines).
+func parseRaces(stderr, srcDir string) []raceReport {
+	var out []raceReport
+	run := -1
+	lines := strings.Split(stderr, "\n")
+	for i := 0; i < len(lines); i++ {
+		if strings.HasPrefix(lines[i], "@@RUN ") {
+			run, _ = strconv.Atoi(strings.TrimPrefix(lines[i], "@@RUN "))
+			continue
+		}
+		if lines[i] != "WARNING: DATA RACE" {
+			continue
+		}
+		rr := raceReport{run: run}
+		j := i + 1
+		for acc := 0; acc < 2 && j < len(lines); acc++ {
+			// access header line, then frames until a blank line
+			j++
+			site, noise := "?", false
+			found := false
+			for ; j+1 < len(lines) && strings.TrimSpace(lines[j]) != ""; j += 2 {
+				if found {
+					continue
+				}
+				fn := strings.TrimSuffix(strings.TrimSpace(lines[j]), "()")
+				loc := strings.Fields(strings.TrimSpace(lines[j+1]))
+				if strings.HasPrefix(fn, "runtime.") || len(loc) == 0 {
+					continue
+				}
+				found = true
+				switch {
+				case strings.HasPrefix(fn, "verifsim/sim.") || strings.Contains(fn, "/simrt."):
+					// a harness frame: it counts only as the call site of an API of the system under test
+					callee := harnessCallee(srcDir, loc[0])
+					if callee == "" {
+						noise = true
+						site = "harness:" + shortFn(fn)
+					} else {
+						site = "call:" + callee
+					}
+				default:
+					site = shortFn(fn)
+				}
+			}
+			rr.sites[acc] = site
+			if noise {
+				rr.noise = true
+			}
+			for j < len(lines) && strings.TrimSpace(lines[j]) == "" {
+				j++
+			}
+		}
+		if rr.sites[0] > rr.sites[1] {
+			rr.sites[0], rr.sites[1] = rr.sites[1], rr.sites[0]
+		}
+		end := i + 60
+		if end > len(lines) {
+			end = len(lines)
+		}
+		rr.text = strings.Join(lines[i:end], "\n")
+		out = append(out, rr)
+	}
+	return out
+}
+
+var reSUTCall = regexp.MustCompile(`\b(srv|dir|mux|w|r|conn|tc|x|b|entry|c\.srv|d\.d)\.([A-Z]\w*)\(`)
+
+// harnessCallee returns the API of the system under test called on the given
+// harness source line ("" if the line does not call into it).
+func harnessCallee(srcDir, loc string) string {
+	k := strings.LastIndex(loc, ":")
+	if k < 0 {
+		return ""
+	}
+	file, lineS := loc[:k], loc[k+1:]
+	n, _ := strconv.Atoi(lineS)
+	if !strings.Contains(file, "verifsim/sim/") {
+		return ""
+	}
+	b, err := os.ReadFile(filepath.Join(srcDir, "h/sim", filepath.Base(file)))
+	if err != nil {
+		return ""
+	}
+	ls := strings.Split(string(b), "\n")
+	if n < 1 || n > len(ls) {
+		return ""
+	}
+	if m := reSUTCall.FindStringSubmatch(ls[n-1]); m != nil {
+		return m[1] + "." + m[2]
+	}
+	return ""
+}
+
 type batch struct {
 	prop, tier string
 	seed       uint64
@@ -305,12 +416,13 @@ type batch struct {
 	crashes  []crash
 	watchdog int
 	exits    int
+	races    []raceReport
 }
 
 func (b *batch) runWorker(j int, cfg WorkerCfg) (stderr string, code int) {
 	raw, _ := json.Marshal(cfg)
 	cmd := exec.Command(b.worker, "-test.run", "^TestWorker$", "-test.timeout", "0")
-	cmd.Env = append(env(), "VERIF_WORKER="+string(raw), "GOMAXPROCS=2", "GORACE=halt_on_error=0 exitcode=0 log_path="+cfg.Out+".race")
+	cmd.Env = append(env(), "VERIF_WORKER="+string(raw), "GOMAXPROCS=2", "GORACE=halt_on_error=0 exitcode=0")
 	var eb bytes.Buffer
 	cmd.Stderr = &eb
 	cmd.Stdout = &eb
@@ -379,7 +491,13 @@ func (b *batch) explore() {
 				b.results = append(b.results, runs...)
 				b.sums = append(b.sums, sums...)
 				b.mu.Unlock()
-				if code == 0 && len(sums) > 0 && sums[len(sums)-1].Final {
+				if b.info.race {
+					rr := parseRaces(stderr, b.dir)
+					b.mu.Lock()
+					b.races = append(b.races, rr...)
+					b.mu.Unlock()
+				}
+				if len(sums) > 0 && sums[len(sums)-1].Final {
 					return
 				}
 				c := parseCrash(stderr)
@@ -570,6 +688,7 @@ func loadFindings() []Finding {
 }
 
 type ReplayFile struct {
+	Mode     string   `json:"mode"` // trace (choice trace) | seed (re-run the run index of the seed: worker deaths and race reports)
 	Property string   `json:"property"`
 	Rule     string   `json:"rule"`
 	Key      string   `json:"key"`
@@ -654,6 +773,27 @@ func check(prop, tier string, seed uint64) int {
 			o.n++
 		}
 	}
+	raceNoise := 0
+	raceByID := map[string]*raceReport{}
+	for i := range b.races {
+		rr := &b.races[i]
+		if rr.noise {
+			raceNoise++
+			continue
+		}
+		v := Violation{Property: "C15", Rule: "race", Key: rr.sites[0] + " <-> " + rr.sites[1], Detail: firstLines(rr.text, 40)}
+		if prop != "C15" {
+			others["C15"]++
+			continue
+		}
+		o := byID[v.ID()]
+		if o == nil {
+			o = &occ{v: v}
+			byID[v.ID()] = o
+			raceByID[v.ID()] = rr
+		}
+		o.n++
+	}
 	sutCrashes := 0
 	for i := range b.crashes {
 		c := b.crashes[i]
@@ -694,6 +834,13 @@ func check(prop, tier string, seed uint64) int {
 			continue
 		}
 		nViol++
+		if rr := raceByID[id]; rr != nil {
+			path := reportRace(b, o.v, rr)
+			fmt.Printf("VIOLATION property=%s replay=%s\n", prop, path)
+			fmt.Printf("  %s %s (seen %d times)\n", o.v.Rule, o.v.Key, o.n)
+			exit = 1
+			continue
+		}
 		path := reportViolation(b, o.v, o.r, o.crash, minimised < 3)
 		minimised++
 		fmt.Printf("VIOLATION property=%s replay=%s\n", prop, path)
@@ -738,6 +885,8 @@ func check(prop, tier string, seed uint64) int {
 		"real_code":                                            "github.com/jimlambrt/gldap and testdirectory from /repo's working tree (with spliced yield points), asn1-ber, go-ldap, bufio, crypto/tls, context, sync",
 		"stubs":                                                "TCP (listener, sockets, port table), clock (testing/synctest), crypto/rand (seeded), logger, handlers, OnClose callback",
 		"race_detector":                                        info.race,
+		"race_reports_total":                                   len(b.races),
+		"race_reports_discarded_as_harness_noise":              raceNoise,
 	}
 	ev["coverage"] = cov
 	os.MkdirAll(verifDir+"/evidence", 0o755)
@@ -775,7 +924,7 @@ func reportViolation(b *batch, v Violation, r *RunResult, c *crash, doMin bool) 
 	os.MkdirAll(verifDir+"/replays", 0o755)
 	h := sha256.Sum256([]byte(v.ID()))
 	path := fmt.Sprintf("%s/replays/%s-%x.json", verifDir, v.Property, h[:5])
-	rf := ReplayFile{Property: v.Property, Rule: v.Rule, Key: v.Key, Check: b.prop, Tier: b.tier, Lean: b.info.lean, Race: b.info.race, Seed: b.seed, Detail: v.Detail}
+	rf := ReplayFile{Mode: "trace", Property: v.Property, Rule: v.Rule, Key: v.Key, Check: b.prop, Tier: b.tier, Lean: b.info.lean, Race: b.info.race, Seed: b.seed, Detail: v.Detail}
 	var trace []uint32
 	if r != nil {
 		trace = r.Choices
@@ -803,10 +952,27 @@ func reportViolation(b *batch, v Violation, r *RunResult, c *crash, doMin bool) 
 			rf.Config = res.Config
 		}
 	}
+	if c != nil && r == nil {
+		rf.Mode = "seed"
+	}
 	if c != nil {
 		rf.Trace = append(rf.Trace, "worker death: "+c.Text, "first frame: "+c.Site, "goroutine created by: "+c.Gor)
 	}
 	rf.Choices = trace
+	out, _ := json.MarshalIndent(rf, "", " ")
+	os.WriteFile(path, out, 0o644)
+	return path
+}
+
+// reportRace writes the replay file of a race report: the run is identified by
+// (seed, run index); replaying it re-runs that one simulated execution in the
+// race build and looks for the same pair of access sites.
+func reportRace(b *batch, v Violation, rr *raceReport) string {
+	os.MkdirAll(verifDir+"/replays", 0o755)
+	h := sha256.Sum256([]byte(v.ID()))
+	path := fmt.Sprintf("%s/replays/%s-%x.json", verifDir, v.Property, h[:5])
+	rf := ReplayFile{Mode: "seed", Property: v.Property, Rule: v.Rule, Key: v.Key, Check: b.prop, Tier: b.tier, Lean: b.info.lean, Race: true, Seed: b.seed, Run: rr.run, Detail: v.Detail,
+		Trace: strings.Split(rr.text, "\n")}
 	out, _ := json.MarshalIndent(rf, "", " ")
 	os.WriteFile(path, out, 0o644)
 	return path
@@ -826,7 +992,7 @@ func replay(path string) int {
 	id := rf.Property + " " + rf.Rule + " " + rf.Key
 	var ids map[string]Violation
 	var res *RunResult
-	if len(rf.Choices) == 0 && rf.Run >= 0 && strings.Contains(strings.Join(rf.Trace, "\n"), "worker death") {
+	if rf.Mode == "seed" || (len(rf.Choices) == 0 && rf.Run >= 0 && strings.Contains(strings.Join(rf.Trace, "\n"), "worker death")) {
 		// replay of a fatal seed: run it alone
 		out := dir + "/replay-seed.jsonl"
 		b := &batch{worker: worker}
@@ -835,6 +1001,14 @@ func replay(path string) int {
 		if code != 0 {
 			if v, ok := crashViolation(rf.Check, parseCrash(stderr)); ok {
 				ids[v.ID()] = v
+			}
+		}
+		if rf.Race {
+			for _, rr := range parseRaces(stderr, dir) {
+				if !rr.noise {
+					v := Violation{Property: "C15", Rule: "race", Key: rr.sites[0] + " <-> " + rr.sites[1], Detail: firstLines(rr.text, 40)}
+					ids[v.ID()] = v
+				}
 			}
 		}
 	} else {
